@@ -162,6 +162,12 @@ func (p *Prog) Method(rel, typ, name string) *ssa.Function {
 					if f.Synthetic == "" {
 						return f
 					}
+					// promoted method: prefer the declared method it forwards to
+					if obj, ok := sel.Obj().(*types.Func); ok {
+						if d := p.SSA.FuncValue(obj); d != nil && d.Blocks != nil && wrapper == nil {
+							wrapper = d
+						}
+					}
 					if wrapper == nil {
 						wrapper = f
 					}
